@@ -1268,7 +1268,8 @@ def draws_round(chk, drv, docs, n_draws, mechanism="draws"):
                     if not ok:
                         sig, extra = classify_body(chk, drv, doc, body_schema, case.media_type, body)
                         if doc.get("deep_chain") and sig == "C01:draw:body-violates-its-schema":
-                            sig = "C01:remove_optional_references:body-below-the-reference-depth-limit-violates-its-schema"
+                            sig = doc["deep_chain"] if isinstance(doc["deep_chain"], str) else \
+                                "C01:remove_optional_references:body-below-the-reference-depth-limit-violates-its-schema"
                         chk.violation(sig, f"generated request body does not conform to the schema declared for its media type "
                                            f"({case.media_type})",
                                       {**rep, "media_type": case.media_type, "body": body if on_wire(body) else repr(body),
@@ -1319,6 +1320,78 @@ def draws_round(chk, drv, docs, n_draws, mechanism="draws"):
                 elif any(bad_codec(t) for t in allstr):
                     chk.violation(KF_F39B, f"a generated string outside any string-typed schema position cannot be encoded as {gc.codec}", rep)
     judge.settle(chk, drv, mechanism)
+
+
+# ---- mechanism: remove_optional_references.clean_properties, one object level (SV/Model/C01Prune.lean) -----------------
+
+PRUNE_SHAPES = {
+    # shape -> (definition, contains_ref, single-member combinator over a reference)
+    "plain": ({"type": "string", "maxLength": 3}, False, False),
+    "ref": ({"$ref": "#/components/schemas/Owner"}, True, False),
+    "array-of-ref": ({"type": "array", "items": {"$ref": "#/components/schemas/Owner"}}, True, False),
+    "tuple-with-ref": ({"type": "array", "items": [{"type": "integer"}, {"$ref": "#/components/schemas/Owner"}]}, True, False),
+    "allOf-ref": ({"allOf": [{"$ref": "#/components/schemas/Owner"}]}, False, True),
+    "anyOf-ref-and-elidable": ({"anyOf": [{"$ref": "#/components/schemas/Owner"}, {"type": "object"}]}, False, True),
+    "allOf-two-refs": ({"allOf": [{"$ref": "#/components/schemas/Owner"}, {"$ref": "#/components/schemas/Owner"}]}, False, False),
+    "object-with-plain-members": ({"type": "object", "properties": {"n": {"type": "integer"}}}, False, False),
+}
+
+
+def detect_prune_variant(chk):
+    from schemathesis.specs.openapi.references import remove_optional_references
+    s = {"type": "object", "properties": {"a": {"$ref": "#/components/schemas/Owner"}}}
+    remove_optional_references(s)
+    v = "repaired" if s["properties"].get("a") == {"not": {}} else "asFound"
+    chk.variants["remove_optional_references:optional-reference-property"] = v
+    return v
+
+
+def corr_prune(chk, drv, n):
+    from schemathesis.specs.openapi.references import remove_optional_references
+    rng = chk.rng
+    variant = detect_prune_variant(chk)
+    names = ["a", "b", "c", "", "0"]
+    work = []
+    # every shape alone, required and optional; then random objects
+    for shape in PRUNE_SHAPES:
+        for req in (False, True):
+            work.append(([("a", shape)], ["a"] if req else [], rng.choice([None, True, False])))
+    for _ in range(n):
+        props = [(nm, rng.choice(list(PRUNE_SHAPES))) for nm in rng.sample(names, rng.randint(1, 4))]
+        required = [nm for nm, _ in props if rng.random() < 0.4] + (["zz"] if rng.random() < 0.1 else [])
+        work.append((props, required, rng.choice([None, True, False])))
+    outs = drv.batch([("prune", {"variant": variant, "required": req,
+                                 "props": [{"name": nm, "hasRef": PRUNE_SHAPES[sh][1], "singleComb": PRUNE_SHAPES[sh][2]} for nm, sh in props]})
+                      for props, req, _ in work])
+    for (props, required, addl), m in zip(work, outs):
+        if isinstance(m, dict):
+            raise InfraError(f"model error {m}")
+        schema = {"type": "object", "properties": {nm: copy.deepcopy(PRUNE_SHAPES[sh][0]) for nm, sh in props}}
+        if required:
+            schema["required"] = list(required)
+        if addl is not None:
+            schema["additionalProperties"] = addl
+        before = copy.deepcopy(schema)
+        remove_optional_references(schema)
+        impl = []
+        for nm, sh in props:
+            now = schema["properties"].get(nm, "absent")
+            if now == "absent":
+                impl.append("absent")
+            elif now == {"not": {}}:
+                impl.append("never")
+            else:
+                # a kept definition may itself have been pruned one level down (single-member combinators are deleted when
+                # the definition is visited): compared on this level only
+                impl.append("keep")
+        inp = {"properties": props, "required": required, "additionalProperties": addl}
+        chk.case("prune:clean_properties", key=inp, nontrivial=True, sample={"in": inp, "impl": impl})
+        for _, sh in props:
+            chk.feature(f"prune:{sh}")
+        if impl != m:
+            chk.disagreement("prune:clean_properties", inp, m, impl)
+        if schema.get("required", []) != before.get("required", []) or schema.get("additionalProperties") != before.get("additionalProperties"):
+            chk.disagreement("prune:clean_properties", inp, "required / additionalProperties unchanged", {"after": schema})
 
 
 # ---- mechanism 5: which strategy a body alternative gets, over histories of requests (_get_body_strategy + its cache) ----
@@ -1603,9 +1676,17 @@ DEEP_CHAIN_LEAVES = [
     # additionalProperties given as a reference
     {"type": "object", "properties": {"a": {"type": "integer"}}, "additionalProperties": _OWNER},
 ]
+# FC01c (recorded, not repaired): a single-member combinator over a reference is deleted at the depth limit also where it is
+# mandatory - under a required property, or on the component itself
+KF_FC01C = "C01:remove_optional_references:mandatory-single-member-combinator-over-a-reference-deleted-at-depth-limit"
+DEEP_CHAIN_LEAVES_FC01C = [
+    {"type": "object", "properties": {"x": {"allOf": [_OWNER]}}, "required": ["x"]},
+    {"allOf": [_OWNER], "type": "object"},
+]
 
 DRAW_WITNESSES = [
     *[_deep_chain_doc(leaf) for leaf in DEEP_CHAIN_LEAVES],
+    *[{**_deep_chain_doc(leaf, draws=20), "satisfiable": None, "deep_chain": KF_FC01C} for leaf in DEEP_CHAIN_LEAVES_FC01C],
     _doc30([{"name": "q", "in": "query", "required": True, "schema": W_F5}]),
     _doc30([], W_F4),
     _doc30([{"name": "id", "in": "path", "required": True, "schema": W_F28}]),
@@ -1712,6 +1793,7 @@ def run(chk):
     location_round(chk, drv, docs, "location")
     ddocs = [G.gen_document(chk.rng, chk.rng.choice(["3.0", "3.0", "2.0", "3.1"]), body_depth=chk.rng.choice([1, 2]), multi=0.35,
                             security=0.25) for _ in range(chk.budget(20, 400))]
+    corr_prune(chk, drv, chk.budget(300, 4000))
     draws_round(chk, drv, DRAW_WITNESSES + ddocs, chk.budget(10, 25))
     bdocs = [G.gen_document(chk.rng, chk.rng.choice(["3.0", "3.0", "3.1", "2.0"]), body_depth=chk.rng.choice([1, 2]), with_ref=False,
                             multi=1.0) for _ in range(chk.budget(40, 600))]
